@@ -70,7 +70,8 @@ pub fn resolves(v: &View, vd: &mut Verdict, prop: &str) {
         let hang = if must_resolve(o.what) {
             true
         } else if matches!(o.what, OpWhat::AwaitClone | OpWhat::Join) {
-            dead != u64::MAX
+            // (a client still waiting at teardown is cancelled by the harness)
+            dead < v.phase(Phase::Teardown)
         } else {
             false
         };
